@@ -26,7 +26,9 @@ RULE = ('case = pre-existing sys / threading trace functions (none or a host fun
         'function separately BETWEEN start and shutdown of one cycle) where every shutdown carries a fault assignment: which plugins raise in shutdown() (Exception or '
         'BaseException class), which of 0-3 pending sends fail, whether the sends are still in flight when shutdown starts (gated '
         'per send: failing ones finish first, the others stay parked beyond the point a non-draining shutdown would return), '
-        'whether a thread started before the shutdown keeps running afterwards. The first shutdown of a case enumerates ALL '
+        'whether a thread started before the shutdown keeps running afterwards, whether a REAL snapshot upload (real PushService) '
+        'failed on the channel just before the shutdown (after shutdown() returned no thread running agent code may be alive '
+        'and nothing may reach the channel). The first shutdown of a case enumerates ALL '
         'subsets of its fault points (plugins + sends <= 4) across consecutive cases. Run on a real deep.api.Deep with the '
         'gRPC module replaced by a fake channel. Non-trivial = some fault was active during a shutdown of a started agent, '
         'or a pre-existing trace function was present, or NO_TRACE. start/shutdown of the model are the TRANSLATED method '
@@ -81,6 +83,22 @@ def make_plugin_class(name, rec, fail_shutdown, order=0, order_raises=False):
 
 
 # ------------------------------------------------------------------------------------------ generation
+def agent_threads(before):
+    """live threads that were started after `before` was taken and run AGENT code (a threading.Timer's function or a
+    Thread's target defined in a deep.* module): after shutdown() returned there must be none — such a thread is a
+    delivery / poll / retry the agent still intends to make.  Pool workers (target in concurrent.futures) are idle."""
+    out = []
+    for t in threading.enumerate():
+        if t.ident in before or not t.is_alive():
+            continue
+        fn = getattr(t, 'function', None) or getattr(t, '_target', None)
+        fn = getattr(fn, '__func__', fn)
+        mod = getattr(fn, '__module__', None) or ''
+        if mod == 'deep' or mod.startswith('deep.'):
+            out.append(f'{type(t).__name__} {getattr(fn, "__qualname__", fn)}')
+    return sorted(out)
+
+
 def all_subsets(n):
     for r in range(n + 1):
         for c in itertools.combinations(range(n), r):
@@ -141,6 +159,8 @@ def gen(rng, tier):
             # shutdown() of an instance that was never started does nothing — in particular a later start() still starts
             head.insert(0, {'op': 'shutdown', 'plugin_faults': [], 'task_faults': [], 'ntask': 0, 'cls': 'exc', 'running': False})
         bg = rng.random() < 0.5
+        # a real snapshot whose upload fails (once or twice) right before the shutdown
+        push_fail = rng.choice([1, 2]) if (not base['no_trace'] and rng.random() < 0.35) else 0
         subsets = list(all_subsets(nplug + ntask))
         if tier == 'quick' and len(subsets) > 6:
             subsets = [subsets[0], subsets[-1]] + rng.sample(subsets[1:-1], 4)
@@ -152,6 +172,8 @@ def gen(rng, tier):
                   'task_faults': tf, 'ntask': ntask,
                   'cls': rng.choice(['exc', 'base']), 'running': later_ok or rng.random() < 0.4, 'bg_thread': bg,
                   'late_submit': ntask >= 1 and rng.random() < 0.5}
+            if push_fail:
+                sd['push_fail'] = push_fail
             c = dict(base)
             c['ops'] = head + [sd, {'op': 'hit'}] + ([{'op': 'late_config'}] if bg and rng.random() < 0.6 else []) + tail
             yield c
@@ -217,6 +239,15 @@ def corpus():
         # shutdown() before the first start() is a no-op: the start that follows starts the agent
         {'pre_sys': 'h', 'pre_thr': None, 'no_trace': False, 'nplug': 1,
          'ops': [dict(sd), {'op': 'start'}, {'op': 'hit'}, dict(sd), {'op': 'hit'}]},
+        # a snapshot upload fails just before the shutdown: nothing of the agent may be left running / sending afterwards
+        {'pre_sys': None, 'pre_thr': 'h', 'no_trace': False, 'nplug': 1,
+         'ops': [{'op': 'start'}, {'op': 'hit'}, dict(sd, push_fail=1), {'op': 'hit'}]},
+        # the scenario of notes/probes/c14_failed_start_retry.py (outside the quantifier; compared with the translated
+        # Deep.start = c14_failed_start_witness), and the other side of the boundary (c14_failed_start_unchanged_partial)
+        {'pre_sys': 'h', 'pre_thr': 'h', 'no_trace': False, 'nplug': 0, 'update': False, 'start_step_fails': 'grpc_start',
+         'ops': [{'op': 'start'}, {'op': 'start'}, {'op': 'hit'}, dict(sd), {'op': 'hit'}]},
+        {'pre_sys': 'h', 'pre_thr': None, 'no_trace': False, 'nplug': 1, 'update': False, 'start_step_fails': 'load_plugins',
+         'ops': [{'op': 'start'}, {'op': 'start'}, {'op': 'hit'}, dict(sd), {'op': 'hit'}]},
         # D18: a thread started before shutdown keeps running
         {'pre_sys': None, 'pre_thr': None, 'no_trace': False, 'nplug': 1,
          'ops': [{'op': 'start'}, {'op': 'hit'}, dict(sd, bg_thread=True), {'op': 'hit'}, {'op': 'late_config'}, {'op': 'hit'}]},
@@ -311,6 +342,8 @@ def run_case(case, out):
     trig = build_trigger('hit', h.files['probe'], h.marks['probe']['P'],
                          {'snapshot': 'no_collect', 'log_msg': 'hit {c}', 'fire_count': '-1', 'fire_period': '0'}, [], [])
     bg = {}
+    threads_before = {t.ident for t in threading.enumerate()}
+    snap_trig = build_trigger('snap', h.files['probe'], h.marks['probe']['P'], {'fire_count': '-1', 'fire_period': '0'}, [], [])
     try:
         deep = Deep(ConfigService(custom, tracepoints=TracepointConfigService()))
         handler = deep.trigger_handler
@@ -411,6 +444,28 @@ def run_case(case, out):
                 timer = deep.poll.timer
                 tthread = timer.thread if timer else None
                 ch = deep.grpc.channel
+                pushed = None
+                if op.get('push_fail') and was and not case['no_trace'] and ch is not None and handler._tp_config:
+                    # a REAL snapshot (collected at the probe line, handed to the real PushService) whose upload fails
+                    # shortly before the shutdown: the first `push_fail` sends on the channel raise
+                    left = [op['push_fail']]
+
+                    def on_send(n, left=left):
+                        if left[0] > 0:
+                            left[0] -= 1
+                            raise fc_env.PluginError('service unavailable')
+                    sent0 = len(ch.sent)
+                    ch.on_send = on_send
+                    cfg_now = list(handler._tp_config)
+                    handler.new_config(cfg_now + [snap_trig])
+                    probe(3)
+                    handler.new_config(cfg_now)
+                    t1 = time.time()
+                    while len(ch.sent) == sent0 and time.time() - t1 < 10:
+                        time.sleep(0.002)
+                    if len(ch.sent) == sent0:
+                        raise core.Infra('the snapshot taken before the shutdown was never handed to the channel')
+                    pushed = {'attempts_before': len(ch.sent) - sent0}
                 gates = [threading.Event() for _ in range(op.get('ntask', 0))]
                 futures = []
                 if was:
@@ -521,6 +576,8 @@ def run_case(case, out):
                     raised = type(e).__name__
                 took = time.time() - t0
                 done_at_return = all(f.done() for f in futures)     # BEFORE anything else is released
+                alive_at_return = agent_threads(threads_before) if was else []
+                sends_at_return = len(ch.sent) if ch is not None else 0
                 late_obs = None
                 if op.get('late_submit') and was and futures:
                     returned.set()
@@ -548,7 +605,8 @@ def run_case(case, out):
                          'polls_after': (len(ch.polls) - npolls) if ch is not None else 0,
                          'pending_done': done_at_return, 'ntask': len(futures),
                          'shut_calls': [e[0] for e in rec.events if e[1] == 'shutdown'][shut_before:],
-                         'slow': took > 8, 'late': late_obs}
+                         'slow': took > 8, 'late': late_obs, 'agent_threads': alive_at_return, 'pushed': pushed,
+                         'sends_after': (len(ch.sent) - sends_at_return) if ch is not None else 0}
                 if bg.get('thread') is not None and 'after' not in bg['res'] and was:
                     bg['gate'].set()
                     if not bg['after_done'].wait(20):
@@ -726,6 +784,17 @@ def oracle(case, obs):
             v.append(f'start with a failing {case["start_step_fails"]}: first start raised {starts[0]["raised"]}, retry raised '
                      f'{starts[1]["raised"]} started {starts[1]["started"]}')
         v += [f'host function returned {st["ret"]}' for st in obs['states'] if st['op'] == 'hit' and st['ret'] != 11]
+        if case['start_step_fails'] in ('load_plugins', 'th_start'):
+            # the boundary of c14_failed_start_unchanged_partial: a start that fails BEFORE the hooks are touched changes
+            # nothing, so after the retry and the shutdown the trace functions are the pre-existing ones
+            first = starts[0] if starts else None
+            if first and (first['sys'], first['thr']) != pre:
+                v.append(f'a start that failed in {case["start_step_fails"]} (before the hooks are installed) left the trace '
+                         f'functions {(first["sys"], first["thr"])}, before it they were {pre}')
+            for i, st in enumerate(obs['states']):
+                if st['op'] == 'shutdown' and (st['sys'], st['thr']) != pre:
+                    v.append(f'after op {i} (shutdown, after a failed first start in {case["start_step_fails"]} and a retry): '
+                             f'the trace functions are {(st["sys"], st["thr"])}, expected {pre}')
         return v
     plugs = ['P99'] + [f'P{i}' for i in range(case['nplug'])]
     stopped_once = False
@@ -767,6 +836,12 @@ def oracle(case, obs):
                              f'{st["polls_after"]} polls)')
                 if not st['pending_done']:
                     v.append(f'{where}: {st["ntask"]} pending sends were not all waited for')
+                if st.get('agent_threads'):
+                    v.append(f'{where}: shutdown() returned but threads started by the agent are still alive and will act '
+                             f'later: {st["agent_threads"]}' + (' (a snapshot upload failed just before the shutdown)'
+                                                                if st.get('pushed') else ''))
+                if st.get('sends_after'):
+                    v.append(f'{where}: {st["sends_after"]} sends reached the service after shutdown() had returned')
                 lo = st.get('late')
                 if lo and lo.get('no_flush'):
                     v.append(f'{where}: shutdown returned without draining delivery (TaskHandler.flush was never called)')
